@@ -619,6 +619,263 @@ fn mutations_in_children(tier: Tier, secs: u64) -> (Tally, Vec<Viol>, bool, usiz
     (tally, viols, capped, total)
 }
 
+// ------------------------------------------------------------------ (c) closure over datagram sequences
+
+#[derive(Clone)]
+enum CEv {
+    Datagram(Vec<u8>),
+    /// liveness evaluation + key GC at the current instant
+    Tick,
+    /// 11 s pass (more than the failure detector's max interval), then liveness evaluation + key GC
+    AdvanceTick,
+}
+
+fn closure_alphabet(tier: Tier) -> Vec<(String, CEv)> {
+    let mut out: Vec<(String, CEv)> = vec![("tick".into(), CEv::Tick), ("advance-11s-tick".into(), CEv::AdvanceTick)];
+    let ids: Vec<Id> = tier.pick(vec![known_id(), unknown_id()], vec![known_id(), unknown_id(), receiver_id()]);
+    let gcs: Vec<u64> = tier.pick(vec![0, 3], vec![0, 3, u64::MAX]);
+    let mut headers = vec![];
+    for id in &ids {
+        for gc in &gcs {
+            for from in [0u64, 1, 3] {
+                headers.push(Op::Node { id: id.clone(), gc: *gc, from });
+            }
+        }
+    }
+    let mut tails: Vec<Option<Op>> = vec![None];
+    for version in tier.pick(vec![1u64, 2, 5], vec![1u64, 2, 5, u64::MAX]) {
+        for status in [0u8, 1] {
+            tails.push(Some(Op::Kv { key: "a".into(), value: "h".into(), version, status }));
+        }
+    }
+    for m in tier.pick(vec![0u64, 5], vec![0u64, 5, u64::MAX]) {
+        tails.push(Some(Op::SetMax(m)));
+    }
+    for h in &headers {
+        for t in &tails {
+            let mut ops = vec![h.clone()];
+            if let Some(o) = t {
+                ops.push(o.clone());
+            }
+            out.push((format!("ACK[{}]", ops.iter().map(op_short).collect::<Vec<_>>().join(" ")), CEv::Datagram(frame(&ops, false))));
+        }
+    }
+    // hostile digests, single entry
+    for id in [receiver_id(), known_id(), unknown_id()] {
+        for hb in tier.pick(vec![1u64, u64::MAX], vec![1u64, u64::MAX - 1, u64::MAX]) {
+            for (gc, mv) in [(0u64, 0u64), (3, 1)] {
+                let e = DigestEntry { id: id.clone(), heartbeat: hb, gc, mv };
+                let name = format!("{}:hb={},gc={},mv={}", id.node_id, hb, gc, mv);
+                out.push((format!("SYN[{name}]"), CEv::Datagram(codec::encode(&Msg::Syn { digest: vec![e.clone()], cluster_id: "c".into() }))));
+                out.push((format!("SYN-ACK[{name}]"), CEv::Datagram(codec::encode(&Msg::SynAck { digest: vec![e], ops: vec![] }))));
+            }
+        }
+    }
+    out
+}
+
+/// Canonical form of what later behaviour can depend on and the harness can observe: every copy
+/// (id, heartbeat, frontier, entries), the live and dead sets. The failure detector's sampling
+/// windows and timers are not observable; states that differ only there are merged (which can
+/// only lose coverage, never produce an alarm: every explored path is a real execution).
+fn closure_key(node: &Node) -> u128 {
+    let mut parts: Vec<String> = vec![];
+    for (id, ns) in node.cc.node_states() {
+        if *id == node.real_id {
+            // the receiver's own heartbeat is not part of the key (it only grows with its own ticks)
+            let kvs: Vec<String> = ns.key_values_including_deleted().map(|(k, vv)| format!("{k}={}@{}/{}", vv.value, vv.version, crate::node::status_kind(vv))).collect();
+            parts.push(format!("self gc{} mv{} {kvs:?}", ns.last_gc_version(), ns.max_version()));
+            continue;
+        }
+        let hb: u64 = ns.heartbeat().into();
+        let kvs: Vec<String> = ns.key_values_including_deleted().map(|(k, vv)| format!("{k}={}@{}/{}", vv.value, vv.version, crate::node::status_kind(vv))).collect();
+        parts.push(format!("{:?} hb{hb} gc{} mv{} {kvs:?}", real::from_real_id(id).node_id, ns.last_gc_version(), ns.max_version()));
+    }
+    let mut live: Vec<String> = node.cc.live_nodes().map(|i| i.node_id.clone()).collect();
+    live.sort();
+    let mut dead: Vec<String> = node.cc.dead_nodes().map(|i| i.node_id.clone()).collect();
+    dead.sort();
+    parts.push(format!("live{live:?} dead{dead:?}"));
+    crate::util::hash128(&parts.join("|"))
+}
+
+/// Replays `path` on base state `base`; oracles on the last event only (every prefix is itself an
+/// explored path). Returns the key of the state reached, or the violation.
+fn closure_run(base: usize, alphabet: &[(String, CEv)], path: &[u16], probes: bool, t: &mut Tally) -> Result<u128, (String, String)> {
+    let mut node = base_state(base);
+    for (i, e) in path.iter().enumerate() {
+        let last = i + 1 == path.len();
+        let before = observe(&node);
+        match &alphabet[*e as usize].1 {
+            CEv::Datagram(bytes) => {
+                t.inc("datagrams");
+                let msg = match guarded(|| real::real_decode(bytes)) {
+                    Err(p) => return Err((format!("decoder panicked: {p}"), format!("panic:{}", short_loc(&p)))),
+                    Ok(Err(_)) => {
+                        t.inc("rejected_by_decoder");
+                        continue;
+                    }
+                    Ok(Ok((m, _))) => m,
+                };
+                if let Err(p) = guarded(|| node.cc.verif_process_message(msg)) {
+                    return Err((format!("process_message panicked on datagram {} of the sequence: {p}", i + 1), format!("panic:{}", short_loc(&p))));
+                }
+            }
+            CEv::Tick | CEv::AdvanceTick => {
+                if matches!(alphabet[*e as usize].1, CEv::AdvanceTick) {
+                    crate::clock::advance(Duration::from_secs(11));
+                }
+                if let Err(p) = guarded(|| {
+                    node.cc.verif_update_nodes_liveness();
+                    node.cc.verif_gc_keys_marked_for_deletion();
+                }) {
+                    return Err((format!("liveness evaluation / GC panicked after {} events: {p}", i + 1), format!("panic:{}", short_loc(&p))));
+                }
+            }
+        }
+        if last {
+            if let Some(v) = check_invariants(&node, &before) {
+                return Err(v);
+            }
+        }
+    }
+    let key = closure_key(&node);
+    if probes {
+        // closing probes on the state reached (the node is discarded afterwards)
+        let r = guarded(|| {
+            node.cc.verif_update_self_heartbeat();
+            node.cc.verif_process_message(real::build_real(&Msg::BadCluster).unwrap());
+            let syn = node.cc.verif_create_syn_message();
+            // an honest peer's SYN must still be answerable
+            node.cc.verif_process_message(syn);
+        });
+        if let Err(p) = r {
+            return Err((format!("after the sequence, the node's own gossip step panicked: {p}"), format!("panic:{}", short_loc(&p))));
+        }
+    }
+    Ok(key)
+}
+
+pub fn sequence_closure(tier: Tier, deadline: Instant) -> Part {
+    let max_depth = 20usize;
+    let mut part = Part::new("hostile/sequence-closure(depth<=20)");
+    let alphabet = closure_alphabet(tier);
+    part.rule = format!("explicit-state breadth-first search over sequences of up to {max_depth} events delivered to one real node, from each of the 6 base states; alphabet of {} events: ACK datagrams (member header alone or followed by one key-value / SetMaxVersion from a reduced hostile alphabet), SYN and SYN-ACK datagrams with a single hostile digest entry (the receiver itself / known / unknown member, extreme heartbeats and frontiers), liveness evaluation + GC now, and the same after 11 s; every path is re-executed from the base state on a fresh real node; states are deduplicated on (every copy's heartbeat, frontier and entries; live set; dead set) — the failure detector's windows and timers are not observable, so merging on this key can lose coverage but never raise an alarm; oracle on every transition: no panic in decoding / processing / evaluation, frontiers do not decrease, live and dead disjoint, the receiver stays live, and on every new state the node's own gossip step (heartbeat, a harmless datagram, creating and answering a SYN) does not panic; the search stops at a fixpoint (no new state) or at depth {max_depth}; non-trivial = distinct states", alphabet.len());
+    part.bounds = json!({"alphabet": alphabet.len(), "max_depth": max_depth, "base_states": BASE_STATES});
+    let mut seen: std::collections::HashSet<(usize, u128)> = Default::default();
+    let mut frontier: Vec<(usize, Vec<u16>)> = vec![];
+    let mut t0 = Tally::default();
+    for base in 0..BASE_STATES {
+        if let Ok(k) = closure_run(base, &alphabet, &[], false, &mut t0) {
+            seen.insert((base, k));
+            frontier.push((base, vec![]));
+        }
+    }
+    let capped = std::sync::atomic::AtomicBool::new(false);
+    let mut viols: Vec<Viol> = vec![];
+    let mut depth_reached = 0usize;
+    let mut fixpoint = false;
+    let mut per_depth: Vec<usize> = vec![];
+    for depth in 1..=max_depth {
+        if frontier.is_empty() {
+            fixpoint = true;
+            break;
+        }
+        let results: Vec<(Tally, Vec<(usize, Vec<u16>, u128)>, Vec<Viol>)> = frontier
+            .par_iter()
+            .map(|(base, path)| {
+                let mut t = Tally::default();
+                let mut next = vec![];
+                let mut v = vec![];
+                for e in 0..alphabet.len() {
+                    if Instant::now() > deadline {
+                        capped.store(true, std::sync::atomic::Ordering::Relaxed);
+                        break;
+                    }
+                    let mut p2 = path.clone();
+                    p2.push(e as u16);
+                    t.inc("transitions");
+                    match closure_run(*base, &alphabet, &p2, false, &mut t) {
+                        Ok(k) => next.push((*base, p2, k)),
+                        Err((what, sig)) => {
+                            if v.len() < 2 {
+                                let names: Vec<&str> = p2.iter().map(|i| alphabet[*i as usize].0.as_str()).collect();
+                                let events: Vec<Value> = p2.iter().map(|i| match &alphabet[*i as usize].1 {
+                                    CEv::Datagram(b) => json!(hex(b)),
+                                    CEv::Tick => json!("tick"),
+                                    CEv::AdvanceTick => json!("advance-tick"),
+                                }).collect();
+                                v.push(Viol { what: format!("base state {base}, events {names:?}: {what}"), sig, replay: json!({"engine":"hostile","family":"closure","base":base,"names":names,"events":events}) });
+                            }
+                        }
+                    }
+                }
+                (t, next, v)
+            })
+            .collect();
+        let mut new_frontier = vec![];
+        for (t, next, v) in results {
+            part.tally.merge(&t);
+            viols.extend(v);
+            for (base, p, k) in next {
+                if seen.insert((base, k)) {
+                    new_frontier.push((base, p));
+                }
+            }
+        }
+        // closing probes once per new state
+        let probe_results: Vec<(Tally, Option<Viol>)> = new_frontier
+            .par_iter()
+            .map(|(base, p)| {
+                let mut t = Tally::default();
+                match closure_run(*base, &alphabet, p, true, &mut t) {
+                    Ok(_) => (Tally::default(), None),
+                    Err((what, sig)) => {
+                        let names: Vec<&str> = p.iter().map(|i| alphabet[*i as usize].0.as_str()).collect();
+                        let events: Vec<Value> = p.iter().map(|i| match &alphabet[*i as usize].1 {
+                            CEv::Datagram(b) => json!(hex(b)),
+                            CEv::Tick => json!("tick"),
+                            CEv::AdvanceTick => json!("advance-tick"),
+                        }).collect();
+                        (Tally::default(), Some(Viol { what: format!("base state {base}, events {names:?}: {what}"), sig, replay: json!({"engine":"hostile","family":"closure","base":base,"names":names,"events":events,"probes":true}) }))
+                    }
+                }
+            })
+            .collect();
+        for (_, v) in probe_results {
+            if let Some(v) = v {
+                viols.push(v);
+            }
+        }
+        depth_reached = depth;
+        per_depth.push(new_frontier.len());
+        frontier = new_frontier;
+        if capped.load(std::sync::atomic::Ordering::Relaxed) || !viols.is_empty() {
+            break;
+        }
+    }
+    if frontier.is_empty() {
+        fixpoint = true;
+    }
+    part.tally.add("distinct_states", seen.len() as u64);
+    part.notes.push(format!("new states per depth: {per_depth:?}"));
+    part.tally.add("max_depth_completed", depth_reached as u64);
+    push(&mut part, viols);
+    part.states = seen.len() as u64;
+    part.transitions = part.tally.get("transitions");
+    part.executions = part.tally.get("transitions");
+    part.distinct_nontrivial = seen.len() as u64;
+    if capped.load(std::sync::atomic::Ordering::Relaxed) {
+        part.exhaustive = false;
+        part.caps_hit.push(format!("wall cap during depth {} ({} states in the frontier); complete below that depth", depth_reached, frontier.len()));
+    } else if fixpoint {
+        part.notes.push(format!("fixpoint: no new state after depth {depth_reached}; every longer sequence over this alphabet ends in an explored state"));
+    }
+    part.sample(json!({"base_state": 3, "events": ["ACK[Node(known,gc=3,from=0) Kv(a,v5,s1)]", "tick", "SYN[known:hb=18446744073709551615,gc=0,mv=0]", "advance-11s-tick"]}));
+    part.require("transitions");
+    part
+}
+
 fn push(part: &mut Part, viols: Vec<Viol>) {
     let mut viols = viols;
     viols.sort_by_key(|v| v.replay.to_string().len());
@@ -630,6 +887,10 @@ fn push(part: &mut Part, viols: Vec<Viol>) {
 pub fn run(tier: Tier, started: Instant) -> Vec<Part> {
     let secs = |s: u64| started + Duration::from_secs(s);
     let mut parts = vec![];
+    if std::env::var("CCMC_ONLY_CLOSURE").is_ok() {
+        // development aid: run the closure part alone
+        return vec![sequence_closure(tier, Instant::now() + Duration::from_secs(tier.pick(15, 2400)))];
+    }
 
     let max_len = tier.pick(3, 4);
     let mut g = Part::new(&format!("hostile/op-grammar(len<={max_len})"));
@@ -703,11 +964,33 @@ pub fn run(tier: Tier, started: Instant) -> Vec<Part> {
     m.sample(json!({"corpus": "ack-kvs-auto", "mutation": "byte 17: 0x01 -> 0x81"}));
     m.require("decoded");
     parts.push(m);
+    parts.push(sequence_closure(tier, Instant::now() + Duration::from_secs(tier.pick(12, 2400))));
     parts
 }
 
 pub fn replay(v: &Value) -> Result<(), String> {
     let base = v["base"].as_u64().unwrap_or(0) as usize;
+    if v["family"].as_str() == Some("closure") {
+        let mut alphabet: Vec<(String, CEv)> = vec![];
+        for e in v["events"].as_array().cloned().unwrap_or_default() {
+            let ev = match e.as_str().unwrap_or("") {
+                "tick" => CEv::Tick,
+                "advance-tick" => CEv::AdvanceTick,
+                h => CEv::Datagram(unhex(h)),
+            };
+            alphabet.push((String::new(), ev));
+        }
+        let path: Vec<u16> = (0..alphabet.len() as u16).collect();
+        let mut t = Tally::default();
+        // every prefix, so that the failing step is named
+        for k in 1..=path.len() {
+            if let Err((what, _)) = closure_run(base, &alphabet, &path[..k], k == path.len(), &mut t) {
+                return Err(what);
+            }
+        }
+        println!("{} events replayed on base state {base}", path.len());
+        return Ok(());
+    }
     let datagrams: Vec<Vec<u8>> = v["hex"].as_array().map(|a| a.iter().filter_map(|x| x.as_str().map(unhex)).collect()).unwrap_or_default();
     let mut t = Tally::default();
     match deliver_all(base, &datagrams, &mut t) {
